@@ -175,6 +175,25 @@ def run(ctx):
                     'the language of `%s` differs from RFC 4515: accepted but not in the reference: %s; in the reference but rejected: %s' % (
                         name, sorted(peg.show_seq(t) for t in extra)[:4], sorted(peg.show_seq(t) for t in lack)[:4]))
     ctx.floor('P1', 'grammar rules', len(rules), 20)
+    # P1c commitments: the parser is a PEG (opt / alt / many0 never give back what they took); no string of the grammar may be lost to
+    # that (pegcommit.py).  Decided for the maximal non-recursive rules (item level); their followers are delimiters.
+    import pegcommit
+    ext_rec = peg.recursive_rules(rules, lambda n: n.split('::')[-1])
+    look_ext = lambda n: rules.get(FP + n)
+    graph = peg.rule_graph(rules, lambda n: n.split('::')[-1])
+    nonrec = [n for n in graph if n not in ext_rec]
+    inner = {m for n in nonrec for m in graph[n]}
+    def touches_rec(n, seen=()):
+        return any(m in ext_rec or (m not in seen and touches_rec(m, seen + (n,))) for m in graph.get(n, ()))
+    tops = sorted(n for n in nonrec if n not in inner and not touches_rec(n))
+    n_samples = 0
+    for name in tops:
+        hz, ns, npts = pegcommit.hazards(rules[FP + name], look_ext, ext_rec, CLASS_SETS, classmap)
+        n_samples += ns
+        ctx.add('P1.commitments-lose-nothing', name, loc(f.hir[FP + name]['body']), not hz,
+                'a string of the grammar is rejected because the parser commits to an optional part / first alternative / greedy repetition: %s' % (
+                    ['%r: %s' % (w, why) for w, j, why in hz][:3]))
+    ctx.floor('P1.commitments', 'sample strings generated from the commit points of the item-level rules %s' % tops, n_samples, 1000)
     # every local grammar function referenced is covered
     refs = set()
     def collect(g):
